@@ -12,3 +12,37 @@
 #define ultoa igv_ultoa
 #include <compat/libc/stdlib/atol.c>
 #include <compat/libc/stdlib/itoa.c>
+
+/* round 3: the debug_asmlink_* routines are declared in igris/dprint/dprint.h outside its
+ * extern "C" block, so a C++ translation unit cannot link to them; reach them from C. */
+#include <stdint.h>
+#include <igris/dprint/dprint.h>
+void c07_asmlink_args(int w, int n, const uint64_t *v)
+{
+    if (w == 8)
+    {
+        if (n == 1) debug_asmlink_args8x1((uint8_t)v[0]);
+        else if (n == 2) debug_asmlink_args8x2((uint8_t)v[0], (uint8_t)v[1]);
+        else if (n == 3) debug_asmlink_args8x3((uint8_t)v[0], (uint8_t)v[1], (uint8_t)v[2]);
+        else debug_asmlink_args8x4((uint8_t)v[0], (uint8_t)v[1], (uint8_t)v[2], (uint8_t)v[3]);
+    }
+    else if (w == 16)
+    {
+        if (n == 1) debug_asmlink_args16x1((uint16_t)v[0]);
+        else if (n == 2) debug_asmlink_args16x2((uint16_t)v[0], (uint16_t)v[1]);
+        else if (n == 3) debug_asmlink_args16x3((uint16_t)v[0], (uint16_t)v[1], (uint16_t)v[2]);
+        else debug_asmlink_args16x4((uint16_t)v[0], (uint16_t)v[1], (uint16_t)v[2], (uint16_t)v[3]);
+    }
+    else
+    {
+        if (n == 1) debug_asmlink_args32x1((uint32_t)v[0]);
+        else if (n == 2) debug_asmlink_args32x2((uint32_t)v[0], (uint32_t)v[1]);
+        else if (n == 3) debug_asmlink_args32x3((uint32_t)v[0], (uint32_t)v[1], (uint32_t)v[2]);
+        else debug_asmlink_args32x4((uint32_t)v[0], (uint32_t)v[1], (uint32_t)v[2], (uint32_t)v[3]);
+    }
+}
+uint64_t c07_asmlink_ret(int w)
+{
+    return w == 8 ? debug_asmlink_ret8() : w == 16 ? debug_asmlink_ret16() : w == 32 ? debug_asmlink_ret32() : debug_asmlink_ret64();
+}
+void c07_asmlink_test(void) { debug_asmlink_test(); }
